@@ -142,6 +142,14 @@ Definition normalise (w : wtable) : wtable :=
          let s := qsum (map snd (snd xw)) in
          (fst xw, map (fun sq : sym * Q => (fst sq, snd sq / s)) (snd xw))) w.
 
+(** The distinct T states reached after the programs of a non-terminal. *)
+Fixpoint dedup_states (l : list state) : list state :=
+  match l with
+  | [] => []
+  | y :: r => if memb sexp_eqb y r then dedup_states r else y :: dedup_states r
+  end.
+Definition outs_at (fuel : nat) (tbl : table) (x : nt) : list state := dedup_states (map snd (lang_at fuel tbl x)).
+
 (** Well-formedness of a weighted table along everything reachable from x:
     rules exist, the weights of the rules are positive and sum to 1, and every
     sequence of argument non-terminals that the threading can produce is again
@@ -165,7 +173,175 @@ Fixpoint wf_at (fuel : nat) (tbl : table) (w : wtable) (x : nt) : bool :=
            match args with
            | [] => true
            | (t, sa) :: ar =>
-             wf_at f tbl w (t, sa, y) && forallb (fun py => wf_seq ar (snd py)) (lang_at f tbl (t, sa, y))
+             wf_at f tbl w (t, sa, y) && forallb (fun y' => wf_seq ar y') (outs_at f tbl (t, sa, y))
+           end) args y) rs
+    end
+  end.
+
+(** ---- structural specification (no stack): the T state after deriving p
+    at x, threading the state left to right through the arguments ---- *)
+Definition thread_out (D : nt -> prog -> option state) : list prog -> list argnt -> state -> option state :=
+  fix go (ps : list prog) (ants : list argnt) (y : state) {struct ps} : option state :=
+    match ps, ants with
+    | [], [] => Some y
+    | a :: ar, (t, s) :: antr =>
+      match D (t, s, y) a with Some y' => go ar antr y' | None => None end
+    | _, _ => None
+    end.
+
+Fixpoint der_out (tbl : table) (x : nt) (p : prog) {struct p} : option state :=
+  match p with
+  | PLeaf s =>
+    match rule_of tbl x s with
+    | Some r => if Nat.eqb (length (fst r)) 0 then Some (snd r) else None
+    | None => None
+    end
+  | PFun f ps =>
+    match rule_of tbl x f with
+    | Some r =>
+      if Nat.eqb (length (fst r)) (length ps)
+      then thread_out (fun x' a => der_out tbl x' a) ps (fst r) (snd r)
+      else None
+    | None => None
+    end
+  end.
+
+(** Programs without the empty application Function(P, []). *)
+Fixpoint normal (p : prog) : bool :=
+  match p with
+  | PLeaf _ => true
+  | PFun _ ps => negb (Nat.eqb (length ps) 0) && forallb normal ps
+  end.
+
+(** The symbol keys of every rule dictionary are pairwise distinct (always true
+    of a Python dict). *)
+Definition table_ok (tbl : table) : bool :=
+  forallb (fun xr : nt * list drule => nodupb sym_eqb (map fst (snd xr))) tbl.
+
+(** Weight of a rule, 0 when it has no tag (a KeyError turned into 0). *)
+Definition wt (w : wtable) (x : nt) (s : sym) : Q :=
+  match weight_of w x s with Some q => q | None => 0 end.
+
+(** Product of the rule weights along the derivation, by structural recursion:
+    P(x, f a1 .. ak) = w(x, f) * P(x1, a1) * ... * P(xk, ak) where xi is the
+    i-th argument non-terminal of the rule with the T state reached after a(i-1). *)
+Definition thread_prob (D : nt -> prog -> option state) (P : nt -> prog -> Q) : list prog -> list argnt -> state -> Q :=
+  fix go (ps : list prog) (ants : list argnt) (y : state) {struct ps} : Q :=
+    match ps, ants with
+    | a :: ar, (t, s) :: antr =>
+      P (t, s, y) a * match D (t, s, y) a with Some y' => go ar antr y' | None => 1 end
+    | _, _ => 1
+    end.
+
+Fixpoint sprob (tbl : table) (w : wtable) (x : nt) (p : prog) {struct p} : Q :=
+  match p with
+  | PLeaf s => wt w x s
+  | PFun f ps =>
+    match rule_of tbl x f with
+    | Some r => wt w x f * thread_prob (der_out tbl) (fun x' a => sprob tbl w x' a) ps (fst r) (snd r)
+    | None => 0
+    end
+  end.
+
+(** Weighted enumeration: lang_at carrying the product of the rule weights. *)
+Definition wseqs_with (L : nt -> list (prog * state * Q)) : list argnt -> state -> list (list prog * state * Q) :=
+  fix seqs (args : list argnt) (y : state) {struct args} : list (list prog * state * Q) :=
+    match args with
+    | [] => [([], y, 1)]
+    | (t, sa) :: ar =>
+      flat_map (fun pyq : prog * state * Q =>
+                  map (fun lyq : list prog * state * Q =>
+                         (fst (fst pyq) :: fst (fst lyq), snd (fst lyq), snd pyq * snd lyq))
+                      (seqs ar (snd (fst pyq))))
+               (L (t, sa, y))
+    end.
+
+Definition wrule_lang (L : nt -> list (prog * state * Q)) (w : wtable) (x : nt) (r : drule) : list (prog * state * Q) :=
+  let '(s, (args, y)) := r in
+  match args with
+  | [] => [(PLeaf s, y, wt w x s)]
+  | _ => map (fun ayq : list prog * state * Q => (PFun s (fst (fst ayq)), snd (fst ayq), wt w x s * snd ayq))
+             (wseqs_with L args y)
+  end.
+
+Fixpoint wlang_at (fuel : nat) (tbl : table) (w : wtable) (x : nt) : list (prog * state * Q) :=
+  match fuel with
+  | O => []
+  | S f =>
+    match rules_of tbl x with
+    | None => []
+    | Some rs => flat_map (wrule_lang (wlang_at f tbl w) w x) rs
+    end
+  end.
+
+(** ---- ProbDetGrammar.pcfg_from_samples (add_count): the rules used by the
+    samples, None when the Python code raises (KeyError / IndexError). *)
+Definition uses_args (U : nt -> prog -> option (list (nt * sym))) : list prog -> list argnt -> state -> option (list (nt * sym)) :=
+  fix go (ps : list prog) (ants : list argnt) (y : state) {struct ps} : option (list (nt * sym)) :=
+    match ps, ants with
+    | [], _ => Some []
+    | a :: ar, (t, s) :: antr =>
+      match U (t, s, y) a, go ar antr y with
+      | Some l1, Some l2 => Some (l1 ++ l2)
+      | _, _ => None
+      end
+    | _ :: _, [] => None
+    end.
+
+Fixpoint uses (tbl : table) (x : nt) (p : prog) {struct p} : option (list (nt * sym)) :=
+  match p with
+  | PLeaf s =>
+    match rules_of tbl x with
+    | None => None
+    | Some rs => match alookup sym_eqb s rs with Some _ => Some [(x, s)] | None => Some [] end
+    end
+  | PFun f ps =>
+    match rule_of tbl x f with
+    | None => None
+    | Some r =>
+      match uses_args (fun x' a => uses tbl x' a) ps (fst r) (snd r) with
+      | Some l => Some ((x, f) :: l)
+      | None => None
+      end
+    end
+  end.
+
+Definition count_use (l : list (nt * sym)) (x : nt) (s : sym) : nat :=
+  length (filter (fun u : nt * sym => nt_eqb (fst u) x && sym_eqb (snd u) s) l).
+
+Definition from_samples (tbl : table) (start : nt) (samples : list prog) : option wtable :=
+  match omap (uses tbl start) samples with
+  | None => None
+  | Some ls =>
+    let l := concat ls in
+    Some (flat_map (fun xr : nt * list drule =>
+                      let total := fold_right Nat.add O (map (fun r : drule => count_use l (fst xr) (fst r)) (snd xr)) in
+                      match total with
+                      | O => []
+                      | _ => [(fst xr, map (fun r : drule =>
+                                              (fst r, inject_Z (Z.of_nat (count_use l (fst xr) (fst r))) / inject_Z (Z.of_nat total)))
+                                           (snd xr))]
+                      end) tbl)
+  end.
+
+(** The same well-formedness check iterating over every (program, state) of the
+    language instead of over the distinct out-states; kept because the sampling
+    proofs (property C09) were written against it. *)
+Fixpoint wf_at_lang (fuel : nat) (tbl : table) (w : wtable) (x : nt) : bool :=
+  match fuel with
+  | O => false
+  | S f =>
+    match rules_of tbl x with
+    | None => false
+    | Some rs =>
+      weights_ok tbl w x rs &&
+      forallb (fun r : drule =>
+        let '(s, (args, y)) := r in
+        (fix wf_seq (args : list argnt) (y : state) : bool :=
+           match args with
+           | [] => true
+           | (t, sa) :: ar =>
+             wf_at_lang f tbl w (t, sa, y) && forallb (fun py => wf_seq ar (snd py)) (lang_at f tbl (t, sa, y))
            end) args y) rs
     end
   end.
